@@ -254,7 +254,7 @@ func MonFaultContainment(a *Analysis, hooks *Hooks) []Violation {
 			}
 		}
 		flagsEqual(c, faultRule)
-		if res.Err != nil && len(c.SetRules) == 0 && !strings.Contains(res.Err.Error(), "cycles") {
+		if res.Err != nil && len(c.SetRules) == 0 && !a.limitDue() {
 			vs = append(vs, Violation{"FaultContainment", c.N, faultRule, "a condition failure made Execute return an error although ReturnErrOnFailedRuleEvaluation is not set: " + res.Err.Error()})
 		}
 		// the failed condition is re-evaluated later: all following cycles agree with the reference,
@@ -335,7 +335,7 @@ func monStaticFaults(a *Analysis) []Violation {
 						anyErr = name
 					}
 				}
-				if res.Err != nil && !strings.Contains(res.Err.Error(), "cycles") {
+				if res.Err != nil && !a.limitDue() {
 					named := false
 					for name := range c.Active {
 						if c.Rec.Truth[name].Err && strings.Contains(res.Err.Error(), name) {
